@@ -138,6 +138,63 @@ func TestVerif_C10(t *testing.T) {
 			}
 			r.Bound("distinct_compact_forms", len(all))
 		}
+		// long paths: every length 0..maxLong (covers 32-byte keys = 64 nibbles, their odd/even neighbours and longer paths that
+		// word-at-a-time / fast-path implementations treat specially), both parities, with and without terminator, over a small
+		// set of nibble patterns (the encoding is positional, patterns make every position distinguishable)
+		maxLong := mc.Pick(r, 160, 600)
+		r.Bound("max_nibbles_long_paths", maxLong)
+		patterns := []func(i int) byte{
+			func(i int) byte { return byte(i % 16) },
+			func(i int) byte { return byte((i*7 + 3) % 16) },
+			func(i int) byte { return 15 },
+			func(i int) byte { return 0 },
+			func(i int) byte { return byte((i / 2) % 16) },
+		}
+		for l := 7; l <= maxLong; l++ {
+			for pi, pat := range patterns {
+				path := make([]byte, l)
+				for i := range path {
+					path[i] = pat(i)
+				}
+				for _, term := range []bool{false, true} {
+					hex := append([]byte{}, path...)
+					if term {
+						hex = append(hex, 16)
+					}
+					r.Case(map[string]any{"long": l, "pattern": pi, "term": term}, func() error {
+						enc := hexToCompact(append([]byte{}, hex...))
+						if ref := refHP(path, term); !bytes.Equal(enc, ref) {
+							return fmt.Errorf("hexToCompact(len %d)=%x, Yellow Paper HP gives %x", l, enc, ref)
+						}
+						if back := compactToHex(append([]byte{}, enc...)); !bytes.Equal(back, hex) {
+							return fmt.Errorf("compactToHex(hexToCompact(len %d)) differs: %x", l, back)
+						}
+						// in place, with and without spare capacity behind the input
+						for _, spare := range []int{0, 8} {
+							buf := make([]byte, len(hex), len(hex)+spare)
+							copy(buf, hex)
+							inpl := hexToCompactInPlace(buf)
+							if !bytes.Equal(inpl, enc) {
+								return fmt.Errorf("hexToCompactInPlace(len %d, term %v)=%x != hexToCompact %x", l, term, inpl, enc)
+							}
+						}
+						if l%2 == 0 {
+							kb := hexToKeybytes(append([]byte{}, hex...))
+							h2 := keybytesToHex(kb)
+							if !bytes.Equal(h2[:len(h2)-1], path) {
+								return fmt.Errorf("keybytesToHex(hexToKeybytes(len %d)) differs", l)
+							}
+							dst := make([]byte, 2*len(kb))
+							if w := writeHexKey(dst, kb); !bytes.Equal(w, path) {
+								return fmt.Errorf("writeHexKey(len %d) differs", l)
+							}
+						}
+						return nil
+					})
+					r.DistinctHash(mc.Hash64(fmt.Sprintf("long|%d|%d|%v", l, pi, term)))
+				}
+			}
+		}
 		// byte keys <= 2 bytes: keybytes <-> hex
 		for l := 0; l <= 2; l++ {
 			n := 1 << (8 * l)
